@@ -18,4 +18,10 @@ let () =
     List.iter (fun w ->
       Printf.printf "S %s%s\n" name (Stdlib.String.concat "" (List.map (fun o -> " " ^ ocaml_string o) w)))
       (shapes actual f)) api;
+  (* "P <fn> <word...>": the lock shapes of the call paths of the concrete concurrent model (ConcSlabModel.v);
+     check.py requires each of them to be among the S lines of its function (for allocate/free/deallocate this is
+     also the Coq obligation conc_slab_shapes_match; realloc is checked here only) *)
+  List.iter (fun (f, w) ->
+      Printf.printf "P %s%s\n" (ocaml_string f) (Stdlib.String.concat "" (List.map (fun o -> " " ^ ocaml_string o) w)))
+    (cshapes cmodel_paths @ cshapes cmodel_paths_realloc);
   flush stdout
